@@ -34,7 +34,11 @@ RULE = ('2-4 hosts (real Server/AsyncServer + PubSubManager/'
         'channel that grows beyond any legitimate history (hosts answering '
         'each other), are violations; on the asyncio side the send to one '
         'client of the issuing host may fail during an emit (cluster and '
-        'single server alike). Non-trivial: >=2 hosts with '
+        'single server alike); histories contain, as a macro, an '
+        'acknowledgement on its way back to the issuing host while that '
+        'host disconnects / moves the same client, and once everything is '
+        'consumed every callback the single server invoked must have been '
+        'invoked. Non-trivial: >=2 hosts with '
         'clients, an op issued on a host that does not own the target, and '
         'a cross-host callback or a room with members on two hosts (delayed: '
         'a membership change inside a flight window).')
@@ -114,7 +118,34 @@ def strategy(tier):
         'init': st.lists(st.tuples(hi, st.integers(0, 1)), min_size=3,
                          max_size=6),
         'init_rooms': st.lists(st.tuples(ci, room), min_size=2, max_size=6),
-        'ops': st.lists(op, min_size=4, max_size=80 if big else 30)})
+        'ops': st.lists(st.one_of(op.map(lambda o: [o]),
+                                  op.map(lambda o: [o]),
+                                  op.map(lambda o: [o]),
+                                  op.map(lambda o: [o]), _macro_st()),
+                        min_size=4, max_size=80 if big else 30).map(
+            lambda ll: [o for l in ll for o in l][:120 if big else 45])})
+
+
+def _macro_st():
+    """A callback emit whose acknowledgement is on its way back to the
+    issuing host while that host issues something else about the same
+    client."""
+    def build(t):
+        via, c, then, room = t
+        seq = [{'op': 'emit_cb', 'via': via, 'c': c}]
+        seq += [{'op': 'consume', 'h': h, 'k': 1} for h in range(4)] * 2
+        seq += [{'op': 'ack', 'c': c, 'args': [1]}]
+        if then == 'sdisc':
+            seq += [{'op': 'sdisc', 'c': c, 'via': via}]
+        elif then == 'close_room':
+            seq += [{'op': 'close_room', 'room': room, 'ns': 0, 'via': via}]
+        else:
+            seq += [{'op': then, 'c': c, 'room': room, 'via': via}]
+        return seq
+    return st.tuples(st.integers(0, 3), st.integers(0, 9),
+                     st.sampled_from(['sdisc', 'sdisc', 'enter', 'leave',
+                                      'close_room']),
+                     st.integers(0, 2)).map(build)
 
 
 def check_case(case):
@@ -626,6 +657,13 @@ def _delayed_oracle(cl, ref, received, ref_received, cb_log, ref_cb_log,
     if len(ks) != len(set(ks)):
         raise Violation('callback-twice', repr(cb_log))
     want = {k: (hi, a) for hi, k, a in ref_cb_log}
+    missing = set(want) - set(ks)
+    if missing:
+        # everything has been consumed: an acknowledgement the single server
+        # accepted has reached the issuing host
+        raise Violation('callback-missing', 'callbacks %r were invoked on '
+                        'the single server, never in the cluster (cluster: '
+                        '%r)' % (sorted(missing), cb_log))
     for hi, k, a in cb_log:
         if k not in want:
             continue        # the single server lost the race differently
